@@ -837,3 +837,71 @@ example : ∀ g, isFloating [⟨false, [some 0]⟩, ⟨true, [some 1]⟩] g = tr
     simp [isFloating] at hg
     omega
   interval_cases g <;> simp_all [isFloating, fixedAt]
+
+/-! ## capstone: the whole stacked gradient for one non-ns fit parameter -/
+
+namespace C02
+
+/-- raw leaves of one dataset as functions of one fit parameter `t` (with their derivatives at the point of
+interest): total event count, the row `a_jk(t)` of source weights, and per selected event the list over the
+sources of `(a_jk(t), R_ik(t))` -/
+structure DSRaw where
+  N : ℕ
+  row : List ((ℝ → ℝ) × ℝ)
+  evs : List (List (((ℝ → ℝ) × ℝ) × ((ℝ → ℝ) × ℝ)))
+
+/-- the weight table `a_jk(t)` of all datasets -/
+noncomputable def tableAt (l : List DSRaw) (t : ℝ) : List (List ℝ) := l.map (fun d => d.row.map (fun e => e.1 t))
+noncomputable def tableDer (l : List DSRaw) : List (List ℝ) := l.map (fun d => d.row.map (·.2))
+
+/-- what the code computes from the leaves, written with the model functions only:
+`f_j = fjRow`, `∂f_j = fjGradRow`, `X_i = xOfRatio (wRatio …)`, `∂X_i = dxOfDRatio (wRatioGrad …)` -/
+noncomputable def DSRaw.toFun (l : List DSRaw) (q : ℝ) (d : DSRaw) : DSFun where
+  N := d.N
+  f := fun t => fjRow (tableAt l t) (d.row.map (fun e => e.1 t))
+  f' := fjGradRow (tableAt l q) (tableDer l) (d.row.map (fun e => e.1 q)) (d.row.map (·.2))
+  ev := d.evs.map (fun ev =>
+    ((fun t => xOfRatio d.N (wRatio (ev.map (fun e => e.1.1 t)) (ev.map (fun e => e.2.1 t)))),
+      dxOfDRatio d.N (wRatioGrad (ev.map (fun e => e.1.1 q)) (ev.map (fun e => e.1.2))
+        (ev.map (fun e => e.2.1 q)) (ev.map (fun e => e.2.2)))))
+
+end C02
+
+/-- **The stacked gradient entry of a non-ns fit parameter is the derivative of the stacked value**,
+*including the contributions through the detector signal yields (`a_jk`), the dataset weights (`f_j`) and
+the source weights in `R_i`*: with every leaf `a_jk(t)`, `R_ik(t)` differentiable at `q`, the composition
+`multiGradP ∘ (fjGradRow, wRatioGrad/N)` — exactly what `MultiDatasetTCLLHRatio.evaluate` assembles from
+`DatasetSignalWeightFactorsService`, `SourceWeightedPDFRatio.get_gradient` and
+`ZeroSigH0SingleDatasetTCLLHRatio.evaluate` — is the derivative of `multiValue ∘ (fjRow, xOfRatio ∘ wRatio)`. -/
+theorem c02_stacked_p_deriv (opa : ℝ) (h0 : 0 < opa) (ns q : ℝ) (l : List DSRaw)
+    (hA : total (tableAt l q) ≠ 0)
+    (hd : ∀ d ∈ l, d.N ≠ 0 ∧ (∀ e ∈ d.row, HasDerivAt e.1 e.2 q) ∧
+      ns * fjRow (tableAt l q) (d.row.map (fun e => e.1 q)) ≠ d.N ∧
+      ∀ ev ∈ d.evs, (∀ e ∈ ev, HasDerivAt e.1.1 e.1.2 q ∧ HasDerivAt e.2.1 e.2.2 q) ∧
+        sumF (ev.map (fun e => e.1.1 q)) ≠ 0) :
+    HasDerivAt
+      (fun t => multiValue opa ns ((l.map (DSRaw.toFun l q)).map (fun d => d.f t))
+        ((l.map (DSRaw.toFun l q)).map (fun d => d.at t)))
+      (multiGradP opa ns ((l.map (DSRaw.toFun l q)).map (fun d => d.f q))
+        ((l.map (DSRaw.toFun l q)).map (·.f')) ((l.map (DSRaw.toFun l q)).map (fun d => d.at q)) 0) q := by
+  refine c02_multi_chain_p opa h0 ns q (l.map (DSRaw.toFun l q)) ?_
+  intro d' hd'
+  simp only [List.mem_map] at hd'
+  obtain ⟨d, hdl, rfl⟩ := hd'
+  obtain ⟨hN, hrow, hne, hev⟩ := hd d hdl
+  have hAll : ∀ r ∈ l.map (·.row), ∀ e ∈ r, HasDerivAt e.1 e.2 q := by
+    intro r hr e he
+    simp only [List.mem_map] at hr
+    obtain ⟨d2, hd2, rfl⟩ := hr
+    exact (hd d2 hd2).2.1 e he
+  have hfj := c02_fj_quotient (l.map (·.row)) d.row q hAll hrow
+    (by simpa [tableAt, List.map_map, Function.comp_def] using hA)
+  refine ⟨hN, hne, ?_, ?_⟩
+  · simpa [DSRaw.toFun, tableAt, tableDer, List.map_map, Function.comp_def] using hfj
+  · intro e he
+    simp only [DSRaw.toFun, List.mem_map] at he
+    obtain ⟨ev, hevm, rfl⟩ := he
+    obtain ⟨hder, hsum⟩ := hev ev hevm
+    have hw := c02_weighted_ratio_grad ev q hder hsum
+    unfold xOfRatio dxOfDRatio
+    exact (hw.sub_const 1).div_const _
